@@ -81,6 +81,25 @@ def gen_starttls(g):
         g.broken.append('%s: keyfilenamebuf[] declaration not found' % ST)
     keyname = mk.group(1).encode() if mk else b''
 
+    # find_servercert(): is `oldlen` the length of the plain name (repaired: the buffers are cut back to the
+    # plain names first) or the length of whatever an earlier call left in certfilename (as found)?
+    fb = func_body(g.text(ST) or '', 'find_servercert') or ''
+    fb_nc = re.sub(r'/\*.*?\*/', '', fb, flags=re.S)
+    if re.search(r'const size_t oldlen = strlen\(certfilename\);', fb_nc) and not re.search(r'keyfilename = certfilename;', fb_nc):
+        oldfixed = 0
+    elif (certname and re.search(r'const size_t oldlen = strlen\("%s"\);' % re.escape(certname.decode()), fb_nc)
+          and re.search(r'certfilename\[oldlen\] = \'\\0\';\s*keyfilenamebuf\[oldlen - 1\] = \'\\0\';\s*keyfilename = certfilename;\s*certfilename\[oldlen\] = \'\.\';', fb_nc)):
+        oldfixed = 1
+    else:
+        g.broken.append('%s:find_servercert: neither the original nor the repaired computation of oldlen recognised' % ST)
+        oldfixed = None
+    for pat, what in ((r"certfilename\[oldlen\] = '\.';\s*strncpy\(certfilename \+ oldlen \+ 1, xmitstat\.localip, sizeof\(certfilename\) - oldlen - 1\);", 'append of the address'),
+                      (r"iplen = oldlen \+ 1 \+ strlen\(xmitstat\.localip\);\s*certfilename\[iplen\] = ':';\s*strncpy\(certfilename \+ iplen \+ 1, localport, sizeof\(certfilename\) - iplen - 1\);", 'append of the port'),
+                      (r"memcpy\(keyfilenamebuf \+ oldlen - 1, certfilename \+ oldlen, sizeof\(certfilename\) - oldlen\);", 'suffix copied to the key name'),
+                      (r'const size_t diroffs = strlen\("control/"\);', 'directory offset')):
+        if not re.search(pat, fb_nc):
+            g.broken.append('%s:find_servercert: anchor %s not found' % (ST, what))
+
     def lst(b):
         return '[%s]' % ', '.join(str(x) for x in b)
     items = [
@@ -94,6 +113,7 @@ def gen_starttls(g):
         ('probeLen', _code(g, NE, 'data_pending', r'i = read\(rfd\.fd, lineinn, (\d+)\);', 'probe read size'), 'data_pending: read(fd, lineinn, N) when poll reports input'),
         ('tlsSyncBeforeReady', _tls_init_order(g), 'tls_init: 1 = sync_pipelining() is called before the 220 is written (then handshake, then ssl = myssl)'),
         ('starttlsGuard', 1 if ok_guard else None, 'smtp_starttls: `if (xmitstat.ssl || !xmitstat.esmtp) return 1;` is the whole guard'),
+        ('certOldlenFixed', oldfixed, 'find_servercert: 1 = oldlen is the length of the plain name and the buffers are reset first; 0 = oldlen = strlen(certfilename)'),
         ('certBufSize', certsz, 'starttls.c: sizeof(certfilename) = sizeof(keyfilenamebuf)'),
         ('certBaseName', 'def certBaseName : List UInt8 := %s' % lst(certname), 'starttls.c: initial content of certfilename'),
         ('keyBaseName', 'def keyBaseName : List UInt8 := %s' % lst(keyname), 'starttls.c: initial content of keyfilenamebuf'),
